@@ -6,6 +6,8 @@ import shutil
 import vlib
 from checks import langgen as lg
 from checks import langcommon as lc
+from checks import objgen as og
+from checks import gengen
 
 TRUSTED_BASE = [
     "Coq 8.16.1 kernel (coqc); vm_compute only in the Example",
@@ -135,6 +137,12 @@ def run(chk):
     for i in range(n):
         g = lg.Gen(rng, nfuncs=rng.randint(0, 3), edge=True)
         progs.append(g.program())
+    # class hierarchies (overloaded virtual methods, deep chains, destructors) and generic specialisations on the sanitizer build
+    for i in range(60 if quick else 900):
+        progs.append(og.ObjGen(rng).program())
+    for i in range(40 if quick else 600):
+        src, fns, classes = gengen.gen(rng)
+        progs.append((fns, classes, src))
     recs, counts = lc.differential(chk, progs, "c12", kind="asan")
     # raw sources: no model, crash / exception shape only
     raws = lc.run_impl(RAW, kind="asan")
